@@ -71,16 +71,33 @@ package httpcache
 // supported subset; only its precondition is used, at the `go` statement that spawns it.
 //@ func (*transport).backgroundRevalidate
 //@   trusted
-//@   property C18 C20
-//@   requires wired(r) && req != nil && stored != nil                      # name: well-formed
+//@   property C18 C20 C08
+//@   requires wired(r) && req != nil && req.URL != nil && freshness != nil && freshness.Age != nil          # name: well-formed
 //@   requires !reqOIC(req)                                                 # name: not-only-if-cached   props: C18
+//@   requires req.Method == "GET" && hget(req.Header, "Range") == ""       # name: plain-get   props: C06
+//@   requires hasArr(ccReq) == dirsHas(ccText(req.Header))                 # name: request-directives-are-the-requests
+//@   requires refs == indexRead || len(refs) == 0                          # name: refs-is-the-index-read-in-this-exchange   props: C08
+//@   assigns *
+
+// The goroutine body of backgroundRevalidate: loads its own copy of the entry, sends the
+// conditional request, finishes the validation with the index and position it was given.
+//@ func (*transport).backgroundRevalidate$1
+//@   property C08 C18 C06 C16
+//@   nosafety
+//@   requires r != nil && wired(*r) && req != nil && *req != nil && (*req).URL != nil && freshness != nil && *freshness != nil && (*freshness).Age != nil
+//@   requires !reqOIC(*req)
+//@   requires (*req).Method == "GET" && hget((*req).Header, "Range") == ""
+//@   requires hasArr(*ccReq) == dirsHas(ccText((*req).Header))
+//@   requires *refs == indexRead || len(*refs) == 0
 //@   assigns *
 
 //@ func (*transport).handleStaleWhileRevalidate
-//@   property C01 C02 C18 C20 C11
+//@   property C01 C02 C18 C20 C11 C08
 //@   requires wired(r) && req != nil && stored != nil && stored.Data != nil && stored.Data.Header != nil && freshness != nil && freshness.Age != nil
 //@   requires !reqOIC(req)                                                 # name: not-only-if-cached   props: C18
 //@   requires req.Header != stored.Data.Header                             # name: request-header-not-shared
+//@   requires req.URL != nil && req.Method == "GET" && hget(req.Header, "Range") == "" && hasArr(ccReq) == dirsHas(ccText(req.Header))   # name: plain-get
+//@   requires refs == indexRead || len(refs) == 0                          # name: refs-is-the-index-read-in-this-exchange   props: C08
 //@   assigns *
 //@   ensures result0 == old(stored.Data) && result1 == nil                         # name: returns-stored
 //@   ensures upstreamCalls == old(upstreamCalls)                                    # name: no-upstream-in-foreground
@@ -91,10 +108,11 @@ package httpcache
 //@   ensures dirsHas(old(ccText(stored.Data.Header)))["no-cache"] ==> (forall j int :: 0 <= j && j < csvN(ncW) && !cacheOwnField(canon(csvAt(ncW, j))) ==> !has(result0.Header, canon(csvAt(ncW, j))))   # name: qualified-no-cache-fields-stripped   props: C02
 
 //@ func (*transport).handleCacheHit
-//@   property C01 C02 C18 C06 C11
+//@   property C01 C02 C18 C06 C11 C08
 //@   requires wired(r) && req != nil && req.URL != nil && stored != nil && stored.Data != nil && stored.Data.Header != nil
 //@   requires req.Method == "GET" && hget(req.Header, "Range") == ""                       # name: plain-get   props: C06
 //@   requires req.Header != stored.Data.Header                                             # name: request-header-not-shared
+//@   requires refs == indexRead || len(refs) == 0                                          # name: refs-is-the-index-read-in-this-exchange   props: C08
 //@   let tq = old(ccText(req.Header))
 //@   let ts = old(ccText(stored.Data.Header))
 //@   let hq = dirsHas(tq)
@@ -124,8 +142,9 @@ package httpcache
 //@ spec func reqOIC(req *http.Request) bool = dirsHas(ccText(req.Header))["only-if-cached"]
 
 //@ func (*transport).handleCacheMiss
-//@   property C18 C10 C06 C11
+//@   property C18 C10 C06 C11 C08
 //@   requires wired(r) && req != nil
+//@   requires refs == indexRead || len(refs) == 0                                          # name: refs-is-the-index-read-in-this-exchange   props: C08
 //@   requires req.Method == "GET" && hget(req.Header, "Range") == ""                       # name: plain-get   props: C06
 //@   assigns *
 //@   ensures (result0 != nil) != (result1 != nil)                                          # name: result-shape   props: C10
@@ -149,7 +168,7 @@ package httpcache
 //@   ensures forall x string :: old(deletedKeys)[x] ==> deletedKeys[x]                     # name: deletions-accumulate   props: C07
 
 //@ func (*transport).RoundTrip
-//@   property C18 C10 C06 C03 C11 C07
+//@   property C18 C10 C06 C03 C11 C07 C08
 //@   requires wired(r) && req != nil && req.URL != nil
 //@   assigns *
 //@   ensures (result0 != nil) != (result1 != nil)                                          # name: result-shape   props: C10
@@ -157,3 +176,40 @@ package httpcache
 //@   ensures result0 != nil ==> result0.Header != nil && len(get(result0.Header, "X-Httpcache-Status")) == 1 && (cstatus(result0.Header) == "HIT" || cstatus(result0.Header) == "STALE" || cstatus(result0.Header) == "REVALIDATED" || cstatus(result0.Header) == "MISS" || cstatus(result0.Header) == "BYPASS")   # name: exactly-one-status   props: C11
 //@   ensures result0 != nil ==> ((hget(result0.Header, "X-From-Cache") == "1") == (cstatus(result0.Header) == "HIT" || cstatus(result0.Header) == "STALE" || cstatus(result0.Header) == "REVALIDATED")) && (cstatus(result0.Header) == "MISS" || cstatus(result0.Header) == "BYPASS" ==> !has(result0.Header, "X-From-Cache"))   # name: legacy-flag-exact   props: C11
 //@   ensures result1 == nil && !safeMethod(old(req.Method)) && upstreamCalls != old(upstreamCalls) && lastUpstreamStatus >= 200 && lastUpstreamStatus < 400 ==> deletedKeys[old(urlKeyOf(req.URL))]   # name: unsafe-success-invalidates-target   props: C07
+
+// finishValidation: the validation-response handler's contract in terms of its own parameters, plus the
+// write-back of a response freshened by a 304 (C08).
+//@ func (*transport).finishValidation
+//@   property C02 C13 C10 C06 C11 C08
+//@   requires wired(r) && req != nil && req.URL != nil && stored != nil && stored.Data != nil && stored.Data.Header != nil
+//@   requires freshness != nil && freshness.Age != nil
+//@   requires (resp != nil && resp.Header != nil && err == nil) || (resp == nil && err != nil)
+//@   requires resp == nil || (resp != stored.Data && resp.Header != stored.Data.Header && resp.Header != req.Header)
+//@   requires req.Method == "GET" && hget(req.Header, "Range") == ""                                # name: plain-get
+//@   requires hasArr(ccReq) == dirsHas(ccText(req.Header))                                           # name: request-directives-are-the-requests
+//@   requires refs == indexRead || len(refs) == 0                                                    # name: refs-is-the-index-read-in-this-exchange   props: C08
+//@   requires req.Header != stored.Data.Header                                                       # name: request-header-not-shared
+//@   let ts = old(ccText(stored.Data.Header))
+//@   let hs = dirsHas(ts)
+//@   let vs = dirsVal(ts)
+//@   let hq = old(hasArr(ccReq))
+//@   let vq = old(valArr(ccReq))
+//@   let failed = err != nil || (resp.StatusCode == 500 || resp.StatusCode == 502 || resp.StatusCode == 503 || resp.StatusCode == 504)
+//@   let blocked = hs["must-revalidate"] || unqualNoCacheA(hs, vs) || hq["no-cache"]
+//@   let life = old(freshness.UsefulLife)
+//@   let ageIn = old(fAge(freshness, now))
+//@   let validated304 = err == nil && resp.StatusCode == 304
+//@   assigns storeWrites, lastSetOK, lastRefs, bodyReadFailed, deletedKeys, lastStoredResp, lastStoredReqTime, lastStoredRespTime, lastStoredRefIndex, now, map(stored.Data.Header), map(resp.Header), resp.Body, stored.Data.Body
+//@   ensures upstreamCalls == old(upstreamCalls)                                                   # name: no-upstream
+//@   ensures (result0 != nil) != (result1 != nil)                                                  # name: result-shape   props: C10
+//@   ensures result1 != nil ==> result1 == err                                                     # name: error-is-origin-error   props: C10
+//@   ensures result0 != nil ==> result0 == old(stored.Data) || result0 == resp                     # name: stored-or-origin-reply
+//@   ensures result0 == old(stored.Data) ==> validated304 || (failed && !blocked && ((ccValidA(hs, vs, "stale-if-error") && sieWithin(ageIn, life, ccDurA(vs, "stale-if-error"))) || (ccValidA(hq, vq, "stale-if-error") && sieWithin(ageIn, life, ccDurA(vq, "stale-if-error")))))   # name: stored-only-after-304-or-stale-if-error   props: C02 C13
+//@   ensures result0 == old(stored.Data) && validated304 ==> statusIs(result0.Header, "REVALIDATED", true)       # name: revalidated-marked   props: C11
+//@   ensures result0 == old(stored.Data) && !validated304 ==> statusIs(result0.Header, "STALE", true) && (exists n int :: hget(result0.Header, "Age") == itoa(n) && n >= secsOf(ageIn))   # name: stale-if-error-marked   props: C11
+//@   let ncS = unquote(vs["no-cache"])
+//@   ensures result0 == old(stored.Data) && !validated304 && hs["no-cache"] ==> (forall j int :: 0 <= j && j < csvN(ncS) && !cacheOwnField(canon(csvAt(ncS, j))) ==> !has(result0.Header, canon(csvAt(ncS, j))))   # name: stale-if-error-strips-no-cache-fields   props: C02
+//@   ensures result0 != nil && result0 != old(stored.Data) ==> (cstatus(result0.Header) == "MISS" || cstatus(result0.Header) == "BYPASS") && len(get(result0.Header, "X-Httpcache-Status")) == 1 && !has(result0.Header, "X-From-Cache")   # name: origin-reply-marked   props: C11
+//@   ensures result0 == old(stored.Data) && validated304 && storeWrites != old(storeWrites) ==> lastStoredResp == result0 && lastStoredReqTime == start && lastStoredRespTime == end && lastStoredRefIndex == refIndex   # name: freshened-response-written-back-with-restarted-age   props: C08
+//@   ensures result0 == old(stored.Data) && !validated304 ==> storeWrites == old(storeWrites)      # name: stale-if-error-does-not-store   props: C08
+//@   ensures result0 == resp && storeWrites != old(storeWrites) ==> lastStoredResp == resp && lastStoredReqTime == start && lastStoredRespTime == end && lastStoredRefIndex == refIndex   # name: full-reply-replaces-the-matched-variant   props: C08
